@@ -110,6 +110,18 @@ InterpLit(b, p) ==
   ELSE IF c = 96 THEN [ok |-> TRUE, next |-> p + 1, kind |-> "end"]
   ELSE InterpLit(b, p + 1)
 
+\* line breaks inside a long string: Lua 5.1 reads CR, CR LF, LF CR and LF as one LF; Luau (Lexer::fixupMultilineString) reads
+\* CR LF and LF as LF and keeps a standalone CR
+RECURSIVE NormNlFrom(_, _, _, _)
+NormNlFrom(b, p, acc, luau) ==
+  IF p > Len(b) THEN acc
+  ELSE IF b[p] = 13 THEN
+       IF p < Len(b) /\ b[p + 1] = 10 THEN NormNlFrom(b, p + 2, Append(acc, 10), luau)
+       ELSE NormNlFrom(b, p + 1, Append(acc, IF luau THEN 13 ELSE 10), luau)
+  ELSE IF b[p] = 10 /\ ~luau /\ p < Len(b) /\ b[p + 1] = 13 THEN NormNlFrom(b, p + 2, Append(acc, 10), luau)
+  ELSE NormNlFrom(b, p + 1, Append(acc, b[p]), luau)
+NormNl(b, luau) == IF \E k \in 1..Len(b) : b[k] = 13 THEN NormNlFrom(b, 1, <<>>, luau) ELSE b
+
 RECURSIVE LexFrom(_, _, _, _, _)
 LexFrom(b, p, acc, luau, ist) ==
   LET c == At(b, p) IN
@@ -125,7 +137,7 @@ LexFrom(b, p, acc, luau, ist) ==
   ELSE IF c = 91 /\ LongOpen(b, p) >= 0 THEN                                      \* long string
        LET lvl == LongOpen(b, p) IN LET s == SkipFirstNl(b, p + 2 + lvl) IN LET cl == FindClose(b, s, lvl) IN
        IF cl = 0 THEN [ok |-> FALSE, toks |-> acc]
-       ELSE LexFrom(b, cl + 2 + lvl, Append(acc, [k |-> "str", v |-> SubSeq(b, s, cl - 1), p |-> p]), luau, ist)
+       ELSE LexFrom(b, cl + 2 + lvl, Append(acc, [k |-> "str", v |-> NormNl(SubSeq(b, s, cl - 1), luau), p |-> p]), luau, ist)
   ELSE IF c \in {34, 39} THEN
        LET r == ShortStr(b, p + 1, c, <<>>, luau) IN
        IF ~r.ok THEN [ok |-> FALSE, toks |-> acc] ELSE LexFrom(b, r.next, Append(acc, [k |-> "str", v |-> r.val, p |-> p]), luau, ist)
